@@ -481,15 +481,26 @@ pub fn cold_main(path: &str, threads: usize) -> i32 {
     let go = std::sync::Arc::new(std::sync::atomic::AtomicBool::new(false));
     let ready = std::sync::Arc::new(std::sync::atomic::AtomicUsize::new(0));
     let mut handles = Vec::new();
+    let arrived: std::sync::Arc<Vec<std::sync::atomic::AtomicUsize>> = std::sync::Arc::new((0..work.len()).map(|_| std::sync::atomic::AtomicUsize::new(0)).collect());
     for t in 0..threads {
-        let (work, go, ready) = (work.clone(), go.clone(), ready.clone());
+        let (work, go, ready, arrived) = (work.clone(), go.clone(), ready.clone(), arrived.clone());
         handles.push(std::thread::spawn(move || {
             ready.fetch_add(1, std::sync::atomic::Ordering::SeqCst);
             while !go.load(std::sync::atomic::Ordering::Acquire) {
                 std::hint::spin_loop();
             }
             let mut bad = Vec::new();
-            for (gi, hi, opts, steps, want) in work.iter() {
+            for (k, (gi, hi, opts, steps, want)) in work.iter().enumerate() {
+                // every history starts on all threads at once (spinning rendezvous), so that the
+                // threads reach whatever this history uses for the first time within nanoseconds
+                arrived[k].fetch_add(1, std::sync::atomic::Ordering::AcqRel);
+                let t0 = std::time::Instant::now();
+                while arrived[k].load(std::sync::atomic::Ordering::Acquire) < threads {
+                    std::hint::spin_loop();
+                    if t0.elapsed().as_secs() > 20 {
+                        break; // a thread died: go on alone
+                    }
+                }
                 let tr = Instance::new(*opts, steps).run_all();
                 let d = format!("{:016x}", transcript_digest(&tr));
                 if &d != want {
@@ -849,7 +860,7 @@ pub fn run(ctx: &Ctx) -> i32 {
     }
     reports.push(rep);
     if reports.iter().all(|r| r.failure.is_none()) {
-        reports.push(cold_start_suite(ctx, &all, ctx.tier.pick(6usize, 40usize)));
+        reports.push(cold_start_suite(ctx, &all, ctx.tier.pick(12usize, 60usize)));
         reports.push(heavy_use_suite(ctx, ctx.tier.pick(48_000usize, 200_000usize)));
         reports.push(blocked_source_suite());
     }
